@@ -439,6 +439,15 @@ let oracle (case : string) (r : string) : bool =
     | _ -> false
   with Parse_error _ | Failure _ | Invalid_argument _ -> false
 
-let () = run_protocol (fun case0 impl -> with_schema case0 (fun c case ->
-  let m = run_c11 c case in
-  (m, oracle case impl, oracle case m)))
+(* a case for a schema that is not part of this run (a known-finding witness on FIX44 in the quick
+   tier, which builds FIX42UTEST only) is skipped on both sides *)
+let schema_missing (case0 : string) : bool =
+  String.length case0 > 0 && case0.[0] = '@' &&
+  (let sp = (try String.index case0 ' ' with Not_found -> String.length case0) in
+   not (List.mem_assoc (String.sub case0 1 (sp - 1)) (Lazy.force ctx_table)))
+
+let () = run_protocol (fun case0 impl ->
+  if schema_missing case0 then ("SKIP schema not built in this tier", true, true)
+  else with_schema case0 (fun c case ->
+    let m = run_c11 c case in
+    (m, oracle case impl, oracle case m)))
